@@ -61,7 +61,7 @@ def _parse_python_code(code: str) -> ast.Module | None:
         return None
     try:
         return ast.parse(code)
-    except SyntaxError:
+    except (SyntaxError, RecursionError, MemoryError):
         return None
 
 
